@@ -308,9 +308,23 @@ def run_case(case):
     replica = bool(case.get('replica'))
     T = build_tree(replica)
     old_req = G.request
+    extra_trees = []
     try:
         root = subst(case['root'], T)
         cwd = subst(case['cwd'], T) if case['cwd'] else T
+        if not os.path.isabs(root):
+            # a relative root is resolved against the working directory of EACH call: first serve once with the same
+            # root string from inside a second, identical tree (whatever that call leaves behind must not matter)
+            T2 = build_tree(replica)
+            try:
+                os.chdir(subst(case['cwd'], T2) if case['cwd'] else T2)
+                app0 = ombott.Ombott()
+                G.request = app0.request
+                app0.route('/s', callback=lambda: ombott.static_file('f.txt', root=root))
+                serve(app0, make_environ('/s'))
+            finally:
+                os.chdir(old_cwd)
+                extra_trees.append(T2)       # kept until the end of the case: a file opened there is an open outside the root
         os.chdir(cwd)
         for idx, rawname in enumerate(case['names']):
             name = subst(rawname, T)
@@ -341,6 +355,8 @@ def run_case(case):
         G.request = old_req
         os.chdir(old_cwd)
         shutil.rmtree(T, ignore_errors=True)
+        for t2 in extra_trees:
+            shutil.rmtree(t2, ignore_errors=True)
     return None
 
 
@@ -357,7 +373,7 @@ def check(name, root, cwd, T, res, opened, seen, replica=False):
         P = norm(p, cwd)
         if inside(P, R):
             continue
-        if P == T or P.startswith(T + '/') or P in WATCH:
+        if P == T or P.startswith(T + '/') or P in WATCH or P.startswith('/tmp/ombott-verif-c16-'):
             return fail('K1.open_outside', opened=P.replace(T, '{T}'), root=R.replace(T, '{T}'), status=res.status)
     # K2: 200 / 403 / 404
     code = res.code
